@@ -1,6 +1,7 @@
 package main
 
 import (
+	"sort"
 	"fmt"
 	"go/types"
 	"regexp"
@@ -19,13 +20,6 @@ func c03Table() []GuardReq {
 	}
 	// ---- v1: revealed unlock conditions hash to the parent's address ----
 	add(req("v1-unlock-hash:SiacoinInputs", VT, uh("SiacoinInputs"), opNE, v1Elem("siacoinElement", "SiacoinInputs")+"#0.SiacoinOutput.Address", "revealed unlock conditions must hash to the address committed in the parent"))
-	r := req("v1-unlock-hash:SiafundInputs", VT, uh("SiafundInputs"), opNE, v1Elem("siafundElement", "SiafundInputs")+"#0.SiafundOutput.Address", "revealed unlock conditions must hash to the address committed in the parent (first conjunct; the dev-address override follows)")
-	r.Weak = true
-	add(r)
-	sfMismatch := uh("SiafundInputs") + " != " + v1Elem("siafundElement", "SiafundInputs") + "#0.SiafundOutput.Address"
-	add(req("v1-devaddr-override:height", VT, "%CH%", opLT, "%NET%.HardforkDevAddr.Height", "dev-address override applies only from its hardfork height", sfMismatch))
-	add(req("v1-devaddr-override:old", VT, v1Elem("siafundElement", "SiafundInputs")+"#0.SiafundOutput.Address", opNE, "%NET%.HardforkDevAddr.OldAddress", "dev-address override applies only to the old developer address", sfMismatch, "%CH% >= %NET%.HardforkDevAddr.Height"))
-	add(req("v1-devaddr-override:new", VT, uh("SiafundInputs"), opNE, "%NET%.HardforkDevAddr.NewAddress", "dev-address override requires the new developer address's conditions", sfMismatch, "%CH% >= %NET%.HardforkDevAddr.Height", "… == %NET%.HardforkDevAddr.OldAddress"))
 	add(req("v1-unlock-hash:FileContractRevisions", VT, uh("FileContractRevisions"), opNE, v1Elem("fileContractElement", "FileContractRevisions")+"#0.FileContract.UnlockHash", "a revision must reveal the conditions committed in the current contract"))
 	// ---- v1 signatures ----
 	sig := "%T1%.Signatures[*]"
@@ -66,7 +60,7 @@ func c03Table() []GuardReq {
 	att := "%T2%.Attestations[*]"
 	add(req("v2-attestation-signed", V2T, vh(att+".PublicKey", "call (consensus.State).AttestationSigHash(%ST%, "+att+")", att+".Signature"), opF, "", "every attestation is signed by its key"))
 	// ---- v2 Foundation update ----
-	r = req("v2-foundation:authorised", V2T, "%T2%.SiacoinInputs[*].Parent.SiacoinOutput.Address", []string{"==", "!="}, "%ST%.FoundationManagementAddress", "the Foundation address changes only when an input controlled by the current management address is spent", "%T2%.NewFoundationAddress != nil")
+	r := req("v2-foundation:authorised", V2T, "%T2%.SiacoinInputs[*].Parent.SiacoinOutput.Address", []string{"==", "!="}, "%ST%.FoundationManagementAddress", "the Foundation address changes only when an input controlled by the current management address is spent", "%T2%.NewFoundationAddress != nil")
 	r.Weak = true
 	add(r)
 	return t
@@ -80,7 +74,8 @@ func runC03(c *Ctx) {
 	runGuardTable(c, "auth-guard", ge, tab)
 	c03FoundationSigned(c, ge)
 	c03AllSupplied(c, ge)
-	c.Min("auth-guard", len(tab)+5)
+	c03SiafundUnlock(c, ge)
+	c.Min("auth-guard", len(tab)+9)
 	c03SigMap(c, ge)
 	progs := ExtractWirePrograms(c.P)
 	c03SigHashCoverage(c, progs)
@@ -328,10 +323,30 @@ func c03AllSupplied(c *Ctx, ge *GuardEngine) {
 		c.OK("auth-guard", "v1-sig-all-supplied", ob.Where, ob.Detail)
 		return
 	}
+	// the whole map where there are signatures, and each parent's required count where there are none
+	withSigs := req("v1-sig-all-supplied", VT, "make[*].need", opGT, "const:0", clause, "len(%T1%.Signatures) != const:0")
+	if ok, ob := ge.TryReq(c, withSigs, gs); ok {
+		n0 := 0
+		for _, f := range []string{"SiacoinInputs", "SiafundInputs", "FileContractRevisions"} {
+			r := req("v1-sig-all-supplied:"+f, VT, "%T1%."+f+"[*].UnlockConditions.SignaturesRequired", opGT, "const:0", clause, "len(%T1%.Signatures) == const:0")
+			if ok2, _ := ge.TryReq(c, r, gs); ok2 {
+				n0++
+			}
+		}
+		if n0 == 3 {
+			c.OK("auth-guard", "v1-sig-all-supplied", ob.Where, "with signatures: every entry of the signature map must have none outstanding; without signatures: no parent of any kind may require one  ["+clause+"]")
+			return
+		}
+	}
 	var missing []string
 	where, n := "", 0
 	for _, f := range []string{"SiacoinInputs", "SiafundInputs", "FileContractRevisions"} {
 		r := req("v1-sig-all-supplied:"+f, VT, "make[%T1%."+f+"[*].ParentID].need", opGT, "const:0", clause)
+		// where the transaction carries no signatures at all, the outstanding count of a parent is the count its
+		// conditions require (a fast path may test that directly; the other case must still consult the map)
+		needRe := regexp.MustCompile(pat("make[%T1%." + f + "[*].ParentID].need"))
+		reqRe := regexp.MustCompile(pat("%T1%." + f + "[*].UnlockConditions.SignaturesRequired"))
+		r.LFn = func(a string) bool { return needRe.MatchString(a) || reqRe.MatchString(a) }
 		if ok, ob := ge.TryReq(c, r, gs); ok {
 			n++
 			where = ob.Where
@@ -341,4 +356,76 @@ func c03AllSupplied(c *Ctx, ge *GuardEngine) {
 	}
 	okAll := n == 3
 	c.Check(okAll, "auth-guard", "v1-sig-all-supplied", ifElse(where != "", where, VT), ifElse(okAll, "the entry of every parent kind that has one (siacoin inputs, siafund inputs, contract revisions) must have no signatures outstanding  ["+clause+"]", "neither the whole signature map nor the entry of every parent kind is checked for outstanding signatures; not covered: "+strings.Join(missing, "; ")+" — "+clause))
+}
+
+// c03SiafundUnlock: a v1 siafund input is accepted iff the revealed conditions hash to the parent's address, or
+// (developer-address hardfork) the child height has reached the hardfork height AND the parent is held by the old
+// developer address AND the conditions hash to the new developer address. Decided as a decision table over the
+// four atomic comparisons (dtable.go), so one compound if, a chain of ifs, a flag local or an address selected
+// into a local and compared by a helper are all the same rule.
+func c03SiafundUnlock(c *Ctx, ge *GuardEngine) {
+	const rule = "auth-guard"
+	fn := c.P.Func("consensus.validateSiafunds")
+	if fn == nil {
+		c.Undecided(rule, "v1-unlock-hash:SiafundInputs", "", "consensus.validateSiafunds does not resolve")
+		return
+	}
+	re := func(p string) *regexp.Regexp { return regexp.MustCompile(pat(p)) }
+	uh := "call (types.UnlockConditions).UnlockHash(%T1%.SiafundInputs[*].UnlockConditions)"
+	parent := "call (consensus.MidState).siafundElement(%MS%, {consensus.V1TransactionSupplement}, %T1%.SiafundInputs[*].ParentID)#0.SiafundOutput.Address"
+	atoms := []dtAtom{
+		{"Hge", re("%CH%"), re("%NET%.HardforkDevAddr.Height"), true},
+		{"Old", re(parent), re("%NET%.HardforkDevAddr.OldAddress"), false},
+		{"New", re(uh), re("%NET%.HardforkDevAddr.NewAddress"), false},
+		{"Par", re(uh), re(parent), false},
+	}
+	table, used, unsup := ge.DecisionTable(fn, atoms, []string{"SiafundInputs"})
+	where := c.P.Pos(fn.Pos())
+	if len(unsup) > 0 {
+		c.Undecided(rule, "v1-unlock-hash:SiafundInputs", where, "decision table not computed: "+strings.Join(unsup, "; "))
+		return
+	}
+	var missing []string
+	for _, a := range atoms {
+		if !used[a.Name] {
+			missing = append(missing, a.Name)
+		}
+	}
+	names := map[string]string{"Hge": "v1-devaddr-override:height", "Old": "v1-devaddr-override:old", "New": "v1-devaddr-override:new", "Par": "v1-unlock-hash:SiafundInputs"}
+	clause := map[string]string{"Hge": "dev-address override applies only from its hardfork height", "Old": "dev-address override applies only to the old developer address", "New": "dev-address override requires the new developer address's conditions", "Par": "revealed unlock conditions must hash to the address committed in the parent"}
+	// per atom: every assignment in which flipping that atom flips the specified verdict must be decided as specified
+	spec := func(a map[string]bool) bool { return a["Par"] || (a["Hge"] && a["Old"] && a["New"]) }
+	for _, at := range atoms {
+		var bad []string
+		if !used[at.Name] {
+			bad = append(bad, "the comparison is never evaluated")
+		}
+		for key, outs := range table {
+			asg := map[string]bool{}
+			for _, kv := range strings.Split(key, ",") {
+				p := strings.SplitN(kv, "=", 2)
+				asg[p[0]] = p[1] == "1"
+			}
+			flipped := map[string]bool{}
+			for k, v := range asg {
+				flipped[k] = v
+			}
+			flipped[at.Name] = !asg[at.Name]
+			if spec(asg) == spec(flipped) {
+				continue // this atom does not matter here
+			}
+			if spec(asg) && !outs["accept"] {
+				bad = append(bad, key+": must be accepted but every path rejects")
+			}
+			if !spec(asg) && outs["accept"] {
+				bad = append(bad, key+": must be rejected but some path accepts")
+			}
+		}
+		sort.Strings(bad)
+		if len(bad) > 2 {
+			bad = append(bad[:2], fmt.Sprintf("… (%d assignments)", len(bad)))
+		}
+		c.Check(len(bad) == 0, rule, names[at.Name], where, ifElse(len(bad) == 0, "decided as the property states on all 16 assignments of (height reached, parent is old address, conditions hash to new address, conditions hash to parent address)  ["+clause[at.Name]+"]", strings.Join(bad, " | ")+" — "+clause[at.Name]))
+	}
+	_ = missing
 }
